@@ -206,6 +206,18 @@ func vpParseEncrypted(s string, keyAlgs []jose.KeyAlgorithm, encs []jose.Content
 	for _, a := range encs {
 		vpEncAlgs = append(vpEncAlgs, string(a))
 	}
+	if vpMintedToken {
+		// the token GenerateUserToken just produced
+		if !vpContains(vpKeyAlgs, vpMintEncKeyAlg) || !vpContains(vpEncAlgs, vpMintEncAlg) {
+			return nil, errors.New("vp: unexpected encryption algorithms")
+		}
+		vpTokKind = vpMintKind
+		vpTokEncBy = vpKeyForeign
+		if string(vpMintEncKey) == string(UserEncryptionKey) {
+			vpTokEncBy = vpKeyUserEnc
+		}
+		return &jwt.JSONWebToken{}, nil
+	}
 	if !vpBool("is-compact-jwe") {
 		return nil, errors.New("vp: not a compact JWE with allowed algorithms")
 	}
@@ -230,6 +242,17 @@ func vpParseSignedAndEncrypted(s string, keyAlgs []jose.KeyAlgorithm, encs []jos
 	for _, a := range sigAlgs {
 		vpSigAlgs = append(vpSigAlgs, string(a))
 	}
+	if vpMintedToken {
+		if vpMintKind != 3 || !vpContains(vpKeyAlgs, vpMintEncKeyAlg) || !vpContains(vpEncAlgs, vpMintEncAlg) {
+			return nil, errors.New("vp: not a nested JWT with allowed algorithms")
+		}
+		vpTokKind = 3
+		vpTokEncBy = vpKeyForeign
+		if string(vpMintEncKey) == string(UserEncryptionKey) {
+			vpTokEncBy = vpKeyUserEnc
+		}
+		return &jwt.NestedJSONWebToken{}, nil
+	}
 	// contract: fails unless compact JWE with allowed algorithms AND content type "JWT" (nested)
 	if !vpBool("is-compact-jwe") || !vpBool("jwe-content-is-nested-jws") {
 		return nil, errors.New("vp: not a nested JWT")
@@ -243,6 +266,17 @@ func vpParseSignedAndEncrypted(s string, keyAlgs []jose.KeyAlgorithm, encs []jos
 func vpDecrypt(t *jwt.NestedJSONWebToken, key interface{}) (*jwt.JSONWebToken, error) {
 	if vpTokEncBy == vpKeyForeign || !vpKeyIs(key, vpKeyBytes(vpTokEncBy)) {
 		return nil, errors.New("vp: decryption failed")
+	}
+	if vpMintedToken {
+		if !vpContains(vpSigAlgs, vpMintSignerAlg) {
+			return nil, errors.New("vp: unexpected inner signature algorithm")
+		}
+		vpTokAlgs = append(vpTokAlgs, vpMintSignerAlg)
+		vpTokSignedBy = vpKeyForeign
+		if string(vpMintSignerKey) == string(UserSigningKey) {
+			vpTokSignedBy = vpKeyUserSign
+		}
+		return &jwt.JSONWebToken{Headers: []jose.Header{{Algorithm: vpMintSignerAlg}}}, nil
 	}
 	alg := vpSymAlg("inner-alg")
 	if !vpContains(vpSigAlgs, alg) {
@@ -515,7 +549,17 @@ func (b vpBuilder) Serialize() (string, error) {
 	if vpBool("serialize-fails") {
 		return "", errors.New("vp: serialize failed")
 	}
-	return "vp.token." + vpItoa(vpMintKind), nil
+	return vpTokenText(), nil
+}
+
+// vpTokenText: the compact serialisation. Its content is opaque to the stubs (the token is described
+// by ghost state), but its LENGTH is faithful in one respect: a token is longer than the claims it carries.
+func vpTokenText() string {
+	t := "vp.token." + vpItoa(vpMintKind) + "."
+	if vpMintClaims != nil {
+		t += vpMintClaims.Subject
+	}
+	return t
 }
 
 type vpNestedBuilder struct{}
@@ -535,7 +579,7 @@ func (b vpNestedBuilder) Serialize() (string, error) {
 	if vpBool("serialize-fails") {
 		return "", errors.New("vp: serialize failed")
 	}
-	return "vp.token." + vpItoa(vpMintKind), nil
+	return vpTokenText(), nil
 }
 
 func vpSigned(sig jose.Signer) jwt.Builder {
